@@ -67,13 +67,15 @@ package state
 // address, and only then writes (ghost flag `logged`).  Undo side: the entry looks up the account
 // it was recorded for and writes back the value it carries.  What is not covered: that the journal
 // methods box exactly their arguments into the entry (interface values), and the map-backed
-// stores behind getStateObject / transientStorage / accessList.
+// stores behind getStateObject / transientStorage / accessList.  `ownwrites`: these functions
+// delegate their writes; apart from the listed `modifies` items they may not store anything
+// themselves (what the callees write is the callees' business).
 
 //@ func (s *stateObject) SetBalance(amount *uint256.Int) (prev uint256.Int)
 //@   serves C13
 //@   requires s.db != nil && s.db.journal != nil && s.data.Balance != nil
 //@   mutates
-//@   noframe
+//@   ownwrites
 //@   ghostvar logged bool = false
 //@   oncall balanceChange: logged = true
 //@   atcall balanceChange requires arg1 == s.db.journal && arg2 == s.address && arg3 == old(s.data.Balance)
@@ -88,7 +90,7 @@ package state
 //@   serves C13
 //@   requires s.db != nil && s.db.journal != nil
 //@   mutates
-//@   noframe
+//@   ownwrites
 //@   ghostvar logged bool = false
 //@   oncall nonceChange: logged = true
 //@   atcall nonceChange requires arg1 == s.db.journal && arg2 == s.address && arg3 == old(s.data.Nonce)
@@ -104,7 +106,7 @@ package state
 //@   requires s.db != nil && s.db.journal != nil && s.dirtyStorage != nil
 //@   atcall setState assume s.dirtyStorage != nil
 //@   mutates
-//@   noframe
+//@   ownwrites
 //@   ghostvar logged bool = false
 //@   oncall storageChange: logged = true
 //@   atcall storageChange requires arg1 == s.db.journal && arg2 == s.address && arg3 == key
@@ -114,7 +116,7 @@ package state
 //@   serves C13
 //@   requires s.db != nil && s.db.journal != nil
 //@   mutates
-//@   noframe
+//@   ownwrites
 //@   ghostvar logged bool = false
 //@   oncall setCode: logged = true
 //@   atcall setCode#1 requires arg1 == s.db.journal && arg2 == s.address
@@ -124,7 +126,8 @@ package state
 //@   serves C13
 //@   requires s.journal != nil
 //@   mutates
-//@   noframe
+//@   ownwrites
+//@   modifies s.refund
 //@   atcall refundChange requires arg1 == s.journal && arg2 == old(s.refund)
 //@   ensures old(s.refund) + gas < 18446744073709551616 ==> s.refund == old(s.refund) + gas
 
@@ -133,7 +136,8 @@ package state
 //@   requires s.journal != nil
 //@   maypanic
 //@   mutates
-//@   noframe
+//@   ownwrites
+//@   modifies s.refund
 //@   atcall refundChange requires arg1 == s.journal && arg2 == old(s.refund)
 //@   ensures s.refund == old(s.refund) - gas && gas <= old(s.refund)
 
@@ -141,7 +145,7 @@ package state
 //@   serves C13
 //@   requires s.journal != nil
 //@   mutates
-//@   noframe
+//@   ownwrites
 //@   ghostvar logged bool = false
 //@   oncall transientStateChange: logged = true
 //@   atcall transientStateChange requires arg1 == s.journal && arg2 == addr && arg3 == key
@@ -151,7 +155,7 @@ package state
 //@   serves C13
 //@   requires s.journal != nil && s.accessList != nil
 //@   mutates
-//@   noframe
+//@   ownwrites
 //@   ghostvar added bool = false
 //@   ghostvar logged bool = false
 //@   oncall AddAddress: added = result
@@ -164,7 +168,7 @@ package state
 //@   serves C13
 //@   requires s.journal != nil && s.accessList != nil
 //@   mutates
-//@   noframe
+//@   ownwrites
 //@   ghostvar addrMod bool = false
 //@   ghostvar slotMod bool = false
 //@   ghostvar loggedA bool = false
@@ -181,21 +185,21 @@ package state
 //@ func (ch balanceChange) revert(s *StateDB)
 //@   serves C13
 //@   mutates
-//@   noframe
+//@   ownwrites
 //@   atcall getStateObject requires arg1 == s && arg2 == ch.account
 //@   atcall setBalance requires arg2 == ch.prev
 
 //@ func (ch nonceChange) revert(s *StateDB)
 //@   serves C13
 //@   mutates
-//@   noframe
+//@   ownwrites
 //@   atcall getStateObject requires arg1 == s && arg2 == ch.account
 //@   atcall setNonce requires arg2 == ch.prev
 
 //@ func (ch storageChange) revert(s *StateDB)
 //@   serves C13
 //@   mutates
-//@   noframe
+//@   ownwrites
 //@   atcall setState assume arg1 != nil && arg1.dirtyStorage != nil
 //@   atcall getStateObject requires arg1 == s && arg2 == ch.account
 //@   atcall setState requires arg2 == ch.key
@@ -205,13 +209,13 @@ package state
 //@ func (ch codeChange) revert(s *StateDB)
 //@   serves C13
 //@   mutates
-//@   noframe
+//@   ownwrites
 //@   atcall getStateObject requires arg1 == s && arg2 == ch.account
 
 //@ func (ch transientStorageChange) revert(s *StateDB)
 //@   serves C13
 //@   mutates
-//@   noframe
+//@   ownwrites
 //@   atcall setTransientState requires arg1 == s && arg2 == ch.account && arg3 == ch.key && arg4 == ch.prevalue
 
 //@ func (ch refundChange) revert(s *StateDB)
@@ -228,20 +232,21 @@ package state
 //@ func (ch accessListAddAccountChange) revert(s *StateDB)
 //@   serves C13
 //@   mutates
-//@   noframe
+//@   ownwrites
 //@   atcall DeleteAddress requires arg1 == s.accessList && arg2 == ch.address
 
 //@ func (ch accessListAddSlotChange) revert(s *StateDB)
 //@   serves C13
 //@   mutates
-//@   noframe
+//@   ownwrites
 //@   atcall DeleteSlot requires arg1 == s.accessList && arg2 == ch.address && arg3 == ch.slot
 
 // reset: a journal that is reused for the next transaction starts like a new one - no entries,
 // no live revisions, ids from zero (so the revision-stack invariant holds trivially).
 //@ func (j *journal) reset()
 //@   serves C13
-//@   noframe
+//@   ownwrites
+//@   modifies j.entries, j.validRevisions, j.nextRevisionId, j.mutations[..]
 //@   ensures len(j.entries) == 0 && len(j.validRevisions) == 0 && j.nextRevisionId == 0
 //@   ensures revInv(j)
 
@@ -261,7 +266,7 @@ package state
 //@   serves C13
 //@   requires s.db != nil
 //@   mutates
-//@   noframe
+//@   ownwrites
 //@   ensures haskey(s.dirtyStorage, key) ==> value == s.dirtyStorage[key]
 //@   ensures !haskey(s.dirtyStorage, key) ==> value == origin
 
